@@ -281,6 +281,10 @@ def _mshape(ty):
         return ('bool',)
     if isinstance(ty, _Str):
         return ('str',)
+    if isinstance(ty, Iface):
+        from .mlist import record_shape
+        iface = ty.iface() if isinstance(ty.iface, types.FunctionType) else ty.iface
+        return record_shape(iface)
     raise Unsupported('MListOf element type %r' % (ty,))
 
 
@@ -490,6 +494,7 @@ class Registry:
         self.ghost_env = {}
         self.transparent = set()
         self.missing = []
+        self.local_shapes = {}     # FuncInfo -> {local name: MListOf}
 
     # ----- registration ---------------------------------------------------------
     def add_contract(self, c):
@@ -514,6 +519,11 @@ class Registry:
             c.raw = obj
             self.by_func[f] = c
             c.returns_value = None
+            if c.locals:
+                try:
+                    self.local_shapes[frontend.funcinfo_of(f)] = c.locals
+                except Exception as e:
+                    self.missing.append((q, 'locals=: cannot locate the source (%s)' % e))
         self.loops_by_code = {}
         for (q, ordinal), ls in self.loops.items():
             try:
@@ -717,7 +727,7 @@ class Contract:
     def __init__(self, qname, params=None, ghosts=None, requires=None, returns=None, ensures=None,
                  raises=None, may_raise=(), raises_only=None, modifies=None, props=(), setup=None,
                  old=None, pure_result=False, notes='', concretize=None, replay=None, trusted=False,
-                 cover=True, inline=False, event=None, yields=None):
+                 cover=True, inline=False, event=None, yields=None, locals=None):
         self.qname = qname
         self.params = params or {}
         self.ghosts = ghosts or {}
@@ -727,7 +737,12 @@ class Contract:
         self.raises = raises or {}          # {ExcClass: {'when': pred or None, 'ensures': pred or None}}
         self.may_raise = tuple(may_raise)   # exception classes the function may raise non-deterministically
         self.raises_only = raises_only      # tuple of exception classes or None (= not checked)
-        self.modifies = modifies
+        # call sites: parameters (or 'param.attr.attr' paths) that are mutable symbolic lists / iterators whose
+        # contents the function changes: havocked between `requires`/`old` and `ensures`
+        self.modifies = tuple(modifies or ())
+        # {local name: MListOf(...)}: a list literal assigned to this local is represented as a symbolic
+        # mutable list from the start (needed when the list is later handed to a contract that modifies it)
+        self.locals = locals or {}
         self.props = tuple(props)
         self.setup = setup                  # optional: (interp) -> dict of extra ghost bindings / state
         self.old = old                      # optional: callable(args...) -> snapshot, evaluated before the call
